@@ -240,12 +240,6 @@ Definition asked (h : list op) (k : string) : bool :=
 Definition supported_type (t : string) : bool :=      (* secrets.IsSupportedSecretType *)
   existsb (String.eqb t) [type_tls; type_ca; type_jwk; type_oidc; type_htpasswd; type_apikey; type_license].
 
-Inductive cev :=
-| CPut (ns name : string) (v : ver)   (* the API object ns/name is created, or updated, to v *)
-| CDel (ns name : string)             (* the API object is deleted *)
-| CDrain                              (* the worker processes every queued task *)
-| CGet (key : string).                (* a resource being configured looks the Secret up *)
-
 Definition objects := string -> option ver.           (* the informer store, by key *)
 Definition oset (o : objects) (k : string) (x : option ver) : objects :=
   fun k' => if String.eqb k' k then x else o k'.
@@ -267,23 +261,70 @@ Definition sync_op (o : objects) (t : qtask) : op :=
   | None => Delete (task_key t)
   end.
 
-Record cstate := mkc { c_objs : objects; c_pend : list qtask }.
-Definition cinit : cstate := mkc (fun _ => None) [].
+(* c_api   the objects in the API server (all namespaces)
+   c_seen  the informer caches: the objects of the namespaces that are watched
+   c_pend  the work queue (Secret tasks)
+   c_keys  every namespace/name that ever existed, in order of first appearance (to enumerate)
+   c_unw   the namespaces that are NOT watched (lost the watch label) *)
+Record cstate := mkc {
+  c_api : objects; c_seen : objects; c_pend : list qtask; c_keys : list qtask; c_unw : list string }.
+Definition cinit : cstate := mkc (fun _ => None) (fun _ => None) [] [] [].
 
-(* one cluster-level step: new informer store / queue, and the store operations it causes *)
+Inductive cev :=
+| CPut (ns name : string) (v : ver)   (* the API object ns/name is created, or updated, to v *)
+| CDel (ns name : string)             (* the API object is deleted *)
+| CDrain                              (* the worker processes every queued task *)
+| CGet (key : string)                 (* a resource being configured looks the Secret up *)
+| CStart                              (* start-up: Run() after the caches are synced: preSyncSecrets *)
+| CUnwatch (ns : string)              (* the namespace loses the watch label: syncNamespace ->
+                                         cleanupUnwatchedNamespacedResources *)
+| CWatch (ns : string).               (* the namespace gets the watch label: new informers list it *)
+
+Definition mem_s (x : string) (l : list string) : bool := existsb (String.eqb x) l.
+Definition in_ns (ns : string) (t : qtask) : bool := String.eqb (fst t) ns.
+Definition ns_key (ns : string) (keys : list qtask) (k : string) : bool :=
+  existsb (fun t => in_ns ns t && String.eqb (task_key t) k) keys.
+Definition supported_obj (x : option ver) : bool :=
+  match x with Some v => supported_type (vtype v) | None => false end.
+Definition is_some {A} (x : option A) : bool := match x with Some _ => true | None => false end.
+
+(* one cluster-level step: new cluster state, and the store operations it causes *)
 Definition cstep (c : cstate) (e : cev) : cstate * list op :=
   match e with
   | CPut ns name v =>        (* AddFunc / UpdateFunc: ignored unless the type is supported *)
-      (mkc (oset (c_objs c) (key_of ns name) (Some v))
-           (if supported_type (vtype v) then enq (ns, name) (c_pend c) else c_pend c), [])
+      let k := key_of ns name in
+      let api := oset (c_api c) k (Some v) in
+      let keys := enq (ns, name) (c_keys c) in
+      if mem_s ns (c_unw c) then (mkc api (c_seen c) (c_pend c) keys (c_unw c), [])
+      else (mkc api (oset (c_seen c) k (Some v))
+                (if supported_type (vtype v) then enq (ns, name) (c_pend c) else c_pend c) keys (c_unw c), [])
   | CDel ns name =>          (* DeleteFunc, with the deleted object: same filter *)
-      match c_objs c (key_of ns name) with
-      | Some v0 => (mkc (oset (c_objs c) (key_of ns name) None)
-                        (if supported_type (vtype v0) then enq (ns, name) (c_pend c) else c_pend c), [])
-      | None => (c, [])
-      end
-  | CDrain => (mkc (c_objs c) [], map (sync_op (c_objs c)) (c_pend c))
+      let k := key_of ns name in
+      let api := oset (c_api c) k None in
+      if mem_s ns (c_unw c) then (mkc api (c_seen c) (c_pend c) (c_keys c) (c_unw c), [])
+      else match c_seen c k with
+           | Some v0 => (mkc api (oset (c_seen c) k None)
+                             (if supported_type (vtype v0) then enq (ns, name) (c_pend c) else c_pend c)
+                             (c_keys c) (c_unw c), [])
+           | None => (mkc api (c_seen c) (c_pend c) (c_keys c) (c_unw c), [])
+           end
+  | CDrain => (mkc (c_api c) (c_seen c) [] (c_keys c) (c_unw c), map (sync_op (c_seen c)) (c_pend c))
   | CGet k => (c, [Get k])
+  | CStart =>                (* preSyncSecrets: AddOrUpdateSecret for every cached Secret of a supported type *)
+      (c, map (sync_op (c_seen c)) (filter (fun t => supported_obj (c_seen c (task_key t))) (c_keys c)))
+  | CUnwatch ns =>           (* DeleteSecret for every Secret in the namespace's cache, whatever its type *)
+      if mem_s ns (c_unw c) then (c, [])
+      else (mkc (c_api c) (fun k => if ns_key ns (c_keys c) k then None else c_seen c k)
+                (c_pend c) (c_keys c) (ns :: c_unw c),
+            map (fun t => Delete (task_key t))
+                (filter (fun t => in_ns ns t && is_some (c_seen c (task_key t))) (c_keys c)))
+  | CWatch ns =>             (* Add events for every object of the namespace *)
+      if mem_s ns (c_unw c) then
+        (mkc (c_api c) (fun k => if ns_key ns (c_keys c) k then c_api c k else c_seen c k)
+             (fold_left (fun q t => if in_ns ns t && supported_obj (c_api c (task_key t)) then enq t q else q)
+                        (c_keys c) (c_pend c))
+             (c_keys c) (filter (fun n => negb (String.eqb n ns)) (c_unw c)), [])
+      else (c, [])
   end.
 
 (* the store-level history a cluster-level history amounts to, and the final cluster state *)
@@ -295,3 +336,12 @@ Fixpoint crun (c : cstate) (h : list cev) : cstate * list op :=
   end.
 
 Definition compile (h : list cev) : list op := snd (crun cinit h).
+
+(* the process dies and a new one starts over the same directory: the store is empty again, the
+   files stay (nothing sweeps the secrets directory), the new informers list the watched
+   namespaces (an Add event per object).  CStart follows. *)
+Definition crestart (c : cstate) : cstate :=
+  mkc (c_api c) (c_seen c)
+      (fold_left (fun q t => if supported_obj (c_seen c (task_key t)) then enq t q else q) (c_keys c) [])
+      (c_keys c) (c_unw c).
+Definition restart_state (st : state) : state := mkstate [] (files st).
